@@ -109,7 +109,7 @@ def validate_scatterer(scatterer):
 
 
 def finalize(detector, result):
-    if not hasattr(detector, 'flat'):
+    if 'flat' not in getattr(detector, 'dims', ()):
         result = from_flat(result)
     return copy_metadata(detector, result, do_coords=False)
 
